@@ -553,6 +553,7 @@ func mapTypesToDynamoTypesGlobalSecondaryIndexes(input []types.GlobalSecondaryIn
 func mapTypesToDynamoLocalSecondaryIndex(input types.LocalSecondaryIndexDescription) dynamodbtypes.LocalSecondaryIndexDescription {
 	return dynamodbtypes.LocalSecondaryIndexDescription{
 		IndexName:  input.IndexName,
+		ItemCount:  aws.Int64(input.ItemCount),
 		KeySchema:  mapTypesToDynamoKeySchemaElements(input.KeySchema),
 		Projection: mapTypesToDynamoProjection(input.Projection),
 	}
